@@ -119,7 +119,8 @@ class Observer(PeerObserver):
     """
     An application's peer observer (Network.peer_observers), one of the configured kinds:
       quiet    does nothing
-      raise    raises from on_peer_removed (a buggy application callback; the caller of the operation sees the error)
+      raise    raises from on_peer_added and on_peer_removed (a buggy application callback; the caller of the operation
+               sees the error)
       reenter  on removal of peer p verifies peer p+1 at its home address from inside the callback, and asks the graph
                for the removed peer by key
     """
@@ -130,7 +131,8 @@ class Observer(PeerObserver):
         self.saw_removed_by_key: list[int] = []
 
     def on_peer_added(self, peer) -> None:  # noqa: ANN001
-        pass
+        if self.mode == "raise":
+            raise ObserverError(self.model.pidx(peer))
 
     def on_peer_removed(self, peer) -> None:  # noqa: ANN001
         m = self.model
@@ -159,6 +161,7 @@ class World:
         self.net.blacklist.extend(ADDRS[a] for a in m.bl_addrs)
         self.net.blacklist_mids.extend(Peer(m.keys[p]).mid for p in m.bl_peers)
         self.ref = RefGraph(m.bl_addrs, m.bl_peers)
+        self.pending_ref = None
 
 
 class Model(core.BfsModel):
@@ -232,18 +235,24 @@ class Model(core.BfsModel):
         kind = ev[0]
         if kind == "add":
             _, p, a = ev
+            w.pending_ref = lambda: ref.add_verified(p, {ref.cls(a): a})
             net.add_verified_peer(self.mkpeer(p, a))
+            w.pending_ref = None
             ref.add_verified(p, {ref.cls(a): a})
         elif kind == "add2":
             _, p, a = ev
             peer = self.mkpeer(p, a)
             peer.add_address(ADDRS[2])
+            w.pending_ref = lambda: ref.add_verified(p, {ref.cls(a): a, ref.cls(2): 2})
             net.add_verified_peer(peer)
+            w.pending_ref = None
             ref.add_verified(p, {ref.cls(a): a, ref.cls(2): 2})
         elif kind == "disc":
             _, p, a, s = ev
             h = self.home(p)
+            w.pending_ref = lambda: ref.discover_address(p, {ref.cls(h): h}, a, s, bool(a % 2))
             net.discover_address(self.mkpeer(p, h), ADDRS[a], None if s is None else SERVICES[s], new_style=bool(a % 2))
+            w.pending_ref = None
             ref.discover_address(p, {ref.cls(h): h}, a, s, bool(a % 2))
         elif kind == "svc":
             _, p, s = ev
